@@ -607,3 +607,143 @@ theorem run_quote (n : Nat) : ∀ (r : Reader) (pos : Nat) (bom : Bom) (d junk a
         simpa using this
 
 end Jomini.TextReader
+
+namespace Jomini.TextReader
+open Jomini Jomini.TextReader.Spec
+
+/-! ### continuing inside an unquoted scalar across refills -/
+
+theorem findIdx_shift (p : UInt8 → Bool) (l : Bytes) (i j : Nat) :
+    findIdx p l (i + j) = (findIdx p l i).map (· + j) := by
+  induction l generalizing i with
+  | nil => simp [findIdx]
+  | cons c l ih =>
+    simp only [findIdx]
+    split
+    · simp
+    · rw [show i + j + 1 = (i + 1) + j by omega, ih]
+
+theorem run_unq (n : Nat) : ∀ (r : Reader) (pos : Nat) (bom : Bom) (d junk : Bytes) (c : UInt8) (body : Bytes) (fuel : Nat),
+    r.src.rest.length ≤ n → Rel r pos bom d → r.win = junk ++ c :: body →
+    findIdx isBoundary body 0 = none →
+    2 * r.src.rest.length + 2 ≤ fuel →
+    match findIdx isBoundary (body ++ r.src.rest) 0 with
+    | some k => ∃ r', run fuel (.refill .unquoted (body.length + 1) (body.length + 1)) r =
+          .ok r' (some (.unquoted ((c :: (body ++ r.src.rest)).take (1 + k)))) ∧
+        Rel r' (pos + junk.length + (1 + k)) bom ((c :: (body ++ r.src.rest)).drop (1 + k))
+    | none => ∃ r', run fuel (.refill .unquoted (body.length + 1) (body.length + 1)) r =
+          .ok r' (some (.unquoted (c :: (body ++ r.src.rest)))) ∧
+        Rel r' (pos + junk.length + (body.length + 1 + r.src.rest.length)) bom [] := by
+  induction n with
+  | zero =>
+    intro r pos bom d junk c body fuel hn hrel hwin hnone hfuel
+    have he : r.src.rest = [] := List.eq_nil_of_length_eq_zero (by omega)
+    obtain ⟨f, rfl⟩ : ∃ f, fuel = f + 1 := ⟨fuel - 1, by omega⟩
+    obtain ⟨r0, hadv, hrel0, hwin0, hsrc0, _⟩ := hrel.advance junk.length (by simp [hwin])
+    have hrest0 : r0.src.rest = [] := by rw [hsrc0]; exact he
+    obtain ⟨r1, hfill, hrel1, hwin1, hrest1⟩ := hrel0.fill_end hrest0
+    have hwin1' : r1.win = c :: body := by rw [hwin1, hwin0, hwin]; simp
+    obtain ⟨r2, hadv2, hrel2, _, _, _⟩ := hrel1.advance r1.win.length (Nat.le_refl _)
+    simp only [he, List.append_nil, hnone]
+    refine ⟨r2, ?_, ?_⟩
+    · rw [run]
+      have e : r.win.length - (body.length + 1) = junk.length := by simp [hwin]
+      have hgt : ¬ body.length + 1 > r.win.length := by simp [hwin]
+      simp only [e, hadv, hgt, if_false, hfill]
+      have : ¬ r1.win.length < body.length + 1 := by simp [hwin1']
+      simp only [this, if_false, hadv2]
+      simp [hwin1']
+    · have hd : (List.drop junk.length d).drop r1.win.length = [] := by
+        rw [← hrel1.data, hrest1]; simp
+      rw [hd] at hrel2
+      have : pos + junk.length + r1.win.length = pos + junk.length + (body.length + 1 + 0) := by simp [hwin1']
+      simpa [this] using hrel2
+  | succ n ih =>
+    intro r pos bom d junk c body fuel hn hrel hwin hnone hfuel
+    obtain ⟨f, rfl⟩ : ∃ f, fuel = f + 1 := ⟨fuel - 1, by omega⟩
+    obtain ⟨r0, hadv, hrel0, hwin0, hsrc0, _⟩ := hrel.advance junk.length (by simp [hwin])
+    have e : r.win.length - (body.length + 1) = junk.length := by simp [hwin]
+    have hgt : ¬ body.length + 1 > r.win.length := by simp [hwin]
+    have hwin0' : r0.win = c :: body := by rw [hwin0, hwin]; simp
+    by_cases he : r.src.rest = []
+    · have hrest0 : r0.src.rest = [] := by rw [hsrc0]; exact he
+      obtain ⟨r1, hfill, hrel1, hwin1, hrest1⟩ := hrel0.fill_end hrest0
+      have hwin1' : r1.win = c :: body := by rw [hwin1, hwin0']
+      obtain ⟨r2, hadv2, hrel2, _, _, _⟩ := hrel1.advance r1.win.length (Nat.le_refl _)
+      simp only [he, List.append_nil, hnone]
+      refine ⟨r2, ?_, ?_⟩
+      · rw [run]
+        simp only [e, hadv, hgt, if_false, hfill]
+        have : ¬ r1.win.length < body.length + 1 := by simp [hwin1']
+        simp only [this, if_false, hadv2]
+        simp [hwin1']
+      · have hd : (List.drop junk.length d).drop r1.win.length = [] := by
+          rw [← hrel1.data, hrest1]; simp
+        rw [hd] at hrel2
+        have : pos + junk.length + r1.win.length = pos + junk.length + (body.length + 1 + 0) := by simp [hwin1']
+        simpa [this] using hrel2
+    · have hrest0 : r0.src.rest ≠ [] := by rw [hsrc0]; exact he
+      obtain ⟨r1, k, hfill, hrel1, hk, hwin1, hrest1⟩ := hrel0.fill_more hrest0
+      rw [hsrc0] at hk hwin1 hrest1
+      rw [hwin0'] at hwin1
+      generalize hnew : r.src.rest.take (k + 1) = new at hwin1
+      have hsplit : r.src.rest = new ++ r1.src.rest := by rw [hrest1, ← hnew]; simp
+      have hlen1 : r1.src.rest.length ≤ n := by rw [hrest1]; simp; omega
+      have hl1 : r1.src.rest.length + (k + 1) = r.src.rest.length := by rw [hrest1]; simp; omega
+      have hnewlen : new.length = k + 1 := by rw [← hnew]; simp; omega
+      have hrun : run (f + 1) (.refill .unquoted (body.length + 1) (body.length + 1)) r =
+          match findIdx isBoundary (r1.win.drop (body.length + 1)) (body.length + 1) with
+          | some m =>
+            match advance r1 m with
+            | some r2 => .ok r2 (some (.unquoted (r1.win.take m)))
+            | none => .panic
+          | none => run f (.refill .unquoted r1.win.length r1.win.length) r1 := by
+        rw [run]
+        simp only [e, hadv, hgt, if_false, hfill]
+        rfl
+      rw [hrun, hwin1]
+      have hdrop : (c :: body ++ new).drop (body.length + 1) = new := by simp
+      rw [hdrop]
+      have hbn : findIdx isBoundary (body ++ new) 0 = findIdx isBoundary new body.length := by
+        rw [findIdx_append_none new hnone]; simp
+      have hsh : findIdx isBoundary new (body.length + 1) = (findIdx isBoundary new body.length).map (· + 1) :=
+        findIdx_shift _ _ _ _
+      have hdata : d = junk ++ c :: (body ++ r.src.rest) := by rw [← hrel.data, hwin]; simp
+      have hdd : List.drop junk.length d = c :: (body ++ r.src.rest) := by rw [hdata]; simp
+      rw [hdd] at hrel1
+      cases hq : findIdx isBoundary new body.length with
+      | some k' =>
+        have e1 : findIdx isBoundary (body ++ r.src.rest) 0 = some k' := by
+          rw [hsplit, ← List.append_assoc]; exact findIdx_append_some _ (by rw [hbn]; exact hq)
+        have hb := findIdx_some_bounds hq
+        simp only [e1, hsh, hq, Option.map_some]
+        obtain ⟨r2, hadv2, hrel2, _, _, _⟩ := hrel1.advance (k' + 1) (by rw [hwin1]; simp; omega)
+        refine ⟨r2, ?_, ?_⟩
+        · simp only [hadv2]
+          have ht : (c :: (body ++ r.src.rest)).take (1 + k') = (c :: body ++ new).take (k' + 1) := by
+            rw [hsplit, show 1 + k' = k' + 1 by omega]
+            simp only [List.cons_append, List.take_succ_cons, ← List.append_assoc]
+            rw [List.take_append_of_le_length (by simp; omega)]
+          rw [ht]
+        · rw [show 1 + k' = k' + 1 by omega]; exact hrel2
+      | none =>
+        have hnone' : findIdx isBoundary (body ++ new) 0 = none := by rw [hbn]; exact hq
+        simp only [hsh, hq, Option.map_none]
+        have hwin1' : r1.win = [] ++ c :: (body ++ new) := by simp [hwin1]
+        have := ih r1 (pos + junk.length) bom _ [] c (body ++ new) f hlen1 hrel1 hwin1' hnone' (by omega)
+        have hassoc : body ++ new ++ r1.src.rest = body ++ r.src.rest := by rw [hsplit]; simp
+        rw [hassoc] at this
+        have hlen2 : (body ++ new).length + 1 = (c :: body ++ new).length := by simp
+        rw [hlen2] at this
+        cases hfin : findIdx isBoundary (body ++ r.src.rest) 0 with
+        | some kk => simp only [hfin] at this ⊢; simpa using this
+        | none =>
+          simp only [hfin] at this ⊢
+          obtain ⟨r', h1, h2⟩ := this
+          refine ⟨r', h1, ?_⟩
+          have : pos + junk.length + (body.length + 1 + r.src.rest.length) =
+              pos + junk.length + ([] : Bytes).length + ((body ++ new).length + 1 + r1.src.rest.length) := by
+            simp; omega
+          rw [this]; exact h2
+
+end Jomini.TextReader
